@@ -320,11 +320,21 @@ package trace
 
 // ---- truncate: at most `limit` characters are kept (runes_upto(s, i) = number of runes - valid or not - that start before
 // byte offset i; an uninterpreted function constrained by its step lemma at every loop position)
+// second loop (input with an invalid byte): vcount(t, i) = number of characters the byte-wise scan of t keeps before offset i
+// (an ASCII byte or a well-formed multi-byte character counts, a byte that starts no well-formed character is skipped).
+// vcount is uninterpreted; it is pinned down by its value at 0 and its step - both hold for the function defined by the scan.
+//@ spec vcount(t string, i int) int
+//@ ghost var trCount int
+//@ axiom vcount_zero: forall t string : vcount(t, 0) == 0
+//@ axiom vcount_step: forall t string : forall i int : 0 <= i && i < len(t) ==> vcount(t, i + max(1, snd(utf8.DecodeRuneInString(t[i:])))) == vcount(t, i) + ite(t[i] >= 128 && snd(utf8.DecodeRuneInString(t[i:])) == 1, 0, 1)
 //@ func truncate(limit int, s string) (r string)
 //@   prop C04
 //@   ensures limit < 0 || len(s) <= limit ==> r == s
 //@   loop#1 invariant 0 <= count && count <= limit && count == runes_upto(s, $off)
 //@   loop#2 invariant 0 <= i && i <= len(s) && count <= limit
+//@   ghost@call Grow#1 : trCount = count
+//@   loop#2 invariant count == trCount + vcount(s, i)
+//@   modifies ghost trCount
 //@   assert@return#2 : runes_upto(s, i) == limit
 //@   assert@return#3 : count == runes_upto(s, len(s)) && count <= limit
 
